@@ -8,11 +8,13 @@
 (* computing something else is a conformance matter, decided on traces).   *)
 (* Checked for every byte count 0..MaxBytes, psize in PSizes, with and     *)
 (* without vector table: result = map over blocks, nothing past `size` is  *)
-(* touched.                                                                *)
+(* touched.  A loop variable narrower than the length type must fail.      *)
 (***************************************************************************)
 EXTENDS Integers, Sequences, TLC
 
-CONSTANTS BSZ, PSizes, MaxBytes, Variant
+CONSTANTS BSZ, PSizes, MaxBytes, Variant,
+          LenBits     \* Variant "narrow": the loops count the bytes left in a variable of LenBits bits
+                      \* (the request length itself is wider: size_t vs unsigned, requests >= 4 GiB)
 
 VARIABLES done, size, psize, vt, ret, outb, touched
 vars == <<done, size, psize, vt, ret, outb, touched>>
@@ -27,6 +29,8 @@ RECURSIVE Singles(_, _, _)
 Singles(pos, left, acc) ==
     IF left >= BSZ THEN Singles(pos + BSZ, left - BSZ, acc \cup {pos \div BSZ}) ELSE <<pos, left, acc>>
 
+Narrow(n) == IF Variant = "narrow" THEN n % (2 ^ LenBits) ELSE n
+
 Init == /\ done = FALSE /\ size \in 0..MaxBytes /\ psize \in PSizes /\ vt \in BOOLEAN
         /\ ret = -1 /\ outb = {} /\ touched = 0
 
@@ -34,7 +38,7 @@ Crypt ==
     /\ ~done /\ done' = TRUE
     /\ IF size % BSZ # 0
        THEN ret' = 0 /\ outb' = {} /\ touched' = 0
-       ELSE LET b == IF vt THEN Batches(0, size, psize * BSZ, {}) ELSE <<0, size, {}>>
+       ELSE LET b == IF vt THEN Batches(0, Narrow(size), psize * BSZ, {}) ELSE <<0, Narrow(size), {}>>
                 s == IF Variant = "noremainder" THEN <<b[1], b[2], {}>> ELSE Singles(b[1], b[2], {})
             IN  /\ ret' = 1
                 /\ outb' = b[3] \cup s[3]
